@@ -27,7 +27,10 @@ theorem adss_share : skelAdssShare =
      "new(adss encrypt)", "key(_)", "send_enc(_)", "send_enc(_)"] := by decide
 
 theorem adss_verify : skelAdssVerify =
-    ["new(adss)", "ad(self.A.to_bytes())", "ad(self.M)", "key(self.R)", "recv_mac(_)"] := by decide
+    ["new(adss)", "ad(self.A.to_bytes())", "ad(self.M)", "key(self.R)", "recv_mac(_)", "prf(_)"] := by decide
+
+/-- ... and after the MAC both derive the key with the same operation -/
+theorem adss_verify_key_matches_share : skelAdssVerify.drop 5 = (skelAdssShare.drop 5).take 1 := by decide
 
 theorem adss_recover : skelAdssRecover = ["new(adss encrypt)", "key(_)", "recv_enc(_)", "recv_enc(_)"] := by decide
 
